@@ -307,11 +307,191 @@ func features(n *Node, fs map[string]bool) {
 		if n.Kind == "slice" && n.N == 0 {
 			fs["empty-slice"] = true
 		}
+		if e := n.Elem; (e.Kind == "array" || e.Kind == "slice") && n.N > 0 && e.N > 0 && nbLeaves(e) > 0 {
+			fs["nested-array"] = true
+			if e.N != n.N {
+				fs["nested-array-nonsquare"] = true
+				if e.Elem.Kind == "struct" || e.Elem.Kind == "ptr" {
+					fs["nested-array-nonsquare-of-structs"] = true
+				}
+			}
+		}
+		if n.Elem.Kind == "struct" && n.N > 0 && structHasArray(n.Elem) {
+			fs["array-of-structs-with-arrays"] = true
+		}
 		features(n.Elem, fs)
 	case "ptr":
 		fs["pointer"] = true
 		features(n.Elem, fs)
 	}
+}
+
+// nbLeaves counts the variables below a node (omitted fields excluded).
+func nbLeaves(n *Node) int {
+	switch n.Kind {
+	case "leaf":
+		return 1
+	case "struct":
+		c := 0
+		for _, f := range n.Fields {
+			if f.Tag != "-" {
+				c += nbLeaves(f.Node)
+			}
+		}
+		return c
+	case "array", "slice":
+		return n.N * nbLeaves(n.Elem)
+	case "ptr":
+		return nbLeaves(n.Elem)
+	}
+	return 0
+}
+
+// liveNonSquare: an array of arrays with unequal dimensions that holds variables
+// and is not below an omitted field (so it reaches the schema and the JSON).
+func liveNonSquare(n *Node) bool {
+	switch n.Kind {
+	case "struct":
+		for _, f := range n.Fields {
+			if f.Tag != "-" && liveNonSquare(f.Node) {
+				return true
+			}
+		}
+	case "array", "slice":
+		if e := n.Elem; (e.Kind == "array" || e.Kind == "slice") && n.N > 0 && e.N > 0 && e.N != n.N && nbLeaves(e) > 0 {
+			return true
+		}
+		return n.N > 0 && liveNonSquare(n.Elem)
+	case "ptr":
+		return liveNonSquare(n.Elem)
+	}
+	return false
+}
+
+func structHasArray(n *Node) bool {
+	for _, f := range n.Fields {
+		if f.Tag == "-" {
+			continue
+		}
+		k := f.Node
+		if k.Kind == "ptr" {
+			k = k.Elem
+		}
+		if (k.Kind == "array" || k.Kind == "slice") && nbLeaves(k) > 0 {
+			return true
+		}
+	}
+	return false
+}
+
+// jsonKey is the documented JSON name of a field: the name part of the gnark
+// tag when there is one, the Go field name otherwise.
+func jsonKey(f Field) string {
+	name := f.Tag
+	if i := strings.Index(name, ","); i >= 0 {
+		name = name[:i]
+	}
+	if name != "" && name != "-" {
+		return name
+	}
+	return f.Name
+}
+
+// jsonDoc writes the JSON document of an assignment by following the plan:
+// objects keyed by field names for structs, arrays in declared index order for
+// arrays and slices, pointers are transparent, leaves are decimal strings taken
+// from vals in declared depth-first order. Parts without any variable do not
+// appear (ok == false).
+func jsonDoc(n *Node, vals []*big.Int, next *int) (doc any, ok bool) {
+	switch n.Kind {
+	case "leaf":
+		v := vals[*next]
+		*next++
+		return v.String(), true
+	case "struct":
+		m := map[string]any{}
+		for _, f := range n.Fields {
+			if f.Tag == "-" {
+				continue
+			}
+			if sub, ok := jsonDoc(f.Node, vals, next); ok {
+				m[jsonKey(f)] = sub
+			}
+		}
+		return m, len(m) > 0
+	case "array", "slice":
+		arr := []any{}
+		for i := 0; i < n.N; i++ {
+			if sub, ok := jsonDoc(n.Elem, vals, next); ok {
+				arr = append(arr, sub)
+			}
+		}
+		return arr, len(arr) > 0
+	case "ptr":
+		return jsonDoc(n.Elem, vals, next)
+	}
+	panic("bad node kind " + n.Kind)
+}
+
+// jsonDiff compares a decoded JSON document with the one written from the plan;
+// numbers are compared modulo q (small negative representatives are allowed).
+func jsonDiff(path string, got, want any, q *big.Int) string {
+	switch w := want.(type) {
+	case map[string]any:
+		g, ok := got.(map[string]any)
+		if !ok {
+			return fmt.Sprintf("%s: want an object, found %v", path, got)
+		}
+		for k := range g {
+			if _, ok := w[k]; !ok {
+				return fmt.Sprintf("%s: unexpected key %q", path, k)
+			}
+		}
+		for k, wv := range w {
+			gv, ok := g[k]
+			if !ok {
+				return fmt.Sprintf("%s: key %q is missing", path, k)
+			}
+			if d := jsonDiff(path+"."+k, gv, wv, q); d != "" {
+				return d
+			}
+		}
+		return ""
+	case []any:
+		g, ok := got.([]any)
+		if !ok {
+			return fmt.Sprintf("%s: want an array of length %d, found %v", path, len(w), got)
+		}
+		if len(g) != len(w) {
+			return fmt.Sprintf("%s: array of length %d, declared length is %d", path, len(g), len(w))
+		}
+		for i := range w {
+			if d := jsonDiff(fmt.Sprintf("%s[%d]", path, i), g[i], w[i], q); d != "" {
+				return d
+			}
+		}
+		return ""
+	case string:
+		var txt string
+		switch g := got.(type) {
+		case json.Number:
+			txt = g.String()
+		case string:
+			txt = g
+		default:
+			return fmt.Sprintf("%s: want the number %s, found %v", path, w, got)
+		}
+		x, ok := new(big.Int).SetString(txt, 10)
+		if !ok {
+			return fmt.Sprintf("%s: %q is not a decimal number", path, txt)
+		}
+		x.Mod(x, q)
+		if x.String() != w {
+			return fmt.Sprintf("%s: holds %s, the value assigned to that variable is %s", path, x, w)
+		}
+		return ""
+	}
+	return path + ": unexpected node in the expected document"
 }
 
 func run(c Case) ev.Outcome {
@@ -346,6 +526,7 @@ func run(c Case) ev.Outcome {
 	assign, abody := newShell(c.Shape)
 	var want []*big.Int
 	var pubWant, secWant []*big.Int
+	var declWant []*big.Int // values in declared order
 	for i, l := range leaves {
 		var val any
 		var x *big.Int
@@ -356,6 +537,7 @@ func run(c Case) ev.Outcome {
 			val = x
 		}
 		at(abody, l.Path).Set(reflect.ValueOf(val))
+		declWant = append(declWant, x)
 		if l.Public {
 			pubWant = append(pubWant, x)
 		} else {
@@ -496,6 +678,46 @@ func run(c Case) ev.Outcome {
 	if !eq(zk.WitnessValues(w3), want) {
 		return ev.Outcome{Violation: fmt.Sprintf("JSON round trip changed the vector: %v -> %v (json %s)", want, zk.WitnessValues(w3), js)}
 	}
+	// (v) the JSON document itself follows the circuit structure: every variable is found
+	// at its own path (field names, indices in declared order, declared array lengths)
+	next := 0
+	body, _ := jsonDoc(c.Shape, declWant, &next)
+	if next != len(declWant) {
+		panic("jsonDoc and plan disagree")
+	}
+	wantDoc := map[string]any{"Body": body}
+	dec := json.NewDecoder(bytes.NewReader(js))
+	dec.UseNumber()
+	var gotDoc any
+	if err := dec.Decode(&gotDoc); err != nil {
+		return ev.Outcome{Violation: "ToJSON output is not JSON: " + err.Error() + " json=" + string(js)}
+	}
+	if d := jsonDiff("$", gotDoc, wantDoc, q); d != "" {
+		return ev.Outcome{Violation: fmt.Sprintf("ToJSON document does not follow the circuit structure: %s (json %s)", d, js)}
+	}
+	// (vi) a document written by hand from the circuit declaration is read back to the same vector
+	hand, err := json.Marshal(wantDoc)
+	if err != nil {
+		panic(err)
+	}
+	sch2, err := schema.New(wrap.Interface(), tVariable) // FromJSON may modify the schema counts
+	if err != nil {
+		return ev.Outcome{Violation: "schema.New failed on a valid shape: " + err.Error()}
+	}
+	w4, _ := witness.New(q)
+	var ferr error
+	if msg := ev.Safely(func() { ferr = w4.FromJSON(sch2, hand) }); msg != "" {
+		return ev.Outcome{Violation: "FromJSON panicked on a document written from the circuit declaration: " + msg + " json=" + string(hand)}
+	}
+	if ferr != nil {
+		return ev.Outcome{Violation: "FromJSON rejects a document written from the circuit declaration: " + ferr.Error() + " json=" + string(hand)}
+	}
+	if !eq(zk.WitnessValues(w4), want) {
+		return ev.Outcome{Violation: fmt.Sprintf("FromJSON of a document written from the circuit declaration gives %v, want %v (json %s)", zk.WitnessValues(w4), want, hand)}
+	}
+	if liveNonSquare(c.Shape) {
+		classes = append(classes, "json-structure-checked-nonsquare")
+	}
 	if swapped {
 		classes = append(classes, "swap-checked")
 	}
@@ -539,10 +761,22 @@ func genNode(t *rapid.T, d int) *Node {
 			n.Fields = append(n.Fields, fl)
 		}
 		return n
-	case k == 7:
-		return &Node{Kind: "array", N: rapid.IntRange(1, 3).Draw(t, "alen"), Elem: genNode(t, d-1)}
-	case k == 8:
-		return &Node{Kind: "slice", N: rapid.IntRange(0, 3).Draw(t, "slen"), Elem: genNode(t, d-1)}
+	case k == 7 || k == 8:
+		kinds := []string{"array", "slice"}
+		n := &Node{Kind: kinds[k-7], N: rapid.IntRange(8-k, 3).Draw(t, "alen")}
+		if rapid.IntRange(0, 2).Draw(t, "nest") == 0 {
+			// array of arrays; the dimensions differ more often than not
+			in := &Node{Kind: rapid.SampledFrom(kinds).Draw(t, "inkind"), N: rapid.IntRange(1, 4).Draw(t, "inlen")}
+			if rapid.IntRange(0, 3).Draw(t, "nest3") == 0 {
+				in.Elem = &Node{Kind: rapid.SampledFrom(kinds).Draw(t, "inkind3"), N: rapid.IntRange(1, 3).Draw(t, "inlen3"), Elem: genNode(t, d-2)}
+			} else {
+				in.Elem = genNode(t, d-1)
+			}
+			n.Elem = in
+			return n
+		}
+		n.Elem = genNode(t, d-1)
+		return n
 	default:
 		e := genNode(t, d-1)
 		if e.Kind != "struct" {
@@ -574,7 +808,7 @@ func genCase(fields []string) *rapid.Generator[Case] {
 	})
 }
 
-const rule = "circuit struct shapes built with reflect.StructOf/ArrayOf/SliceOf/PointerTo (nesting depth <= 4, arrays, slices incl. empty, pointers to structs, tags none/name/public/secret/name+visibility/inherit/omit, visibility conflicts in a labelled minority) x assignment value types (int, uint64, negative int, *big.Int, big.Int, decimal / hex string, []byte, over-modulus and negative big integers) x F47 and curve fields. Oracle: the generator's plan (declared depth-first order, documented visibility rules): witness vector, public-only witness, Witness.Public(), input counts of both compiled systems, Define pinning leaf i to constant i (solves; fails when two same-visibility leaves are exchanged), binary and JSON round trips. Non-trivial: >=2 public and >=2 secret leaves and (depth >= 2, array of structs, omitted field or inherit tag). Distinct: SHA-256 of the case JSON."
+const rule = "circuit struct shapes built with reflect.StructOf/ArrayOf/SliceOf/PointerTo (nesting depth <= 4, arrays, slices incl. empty, pointers to structs, tags none/name/public/secret/name+visibility/inherit/omit, visibility conflicts in a labelled minority) x assignment value types (int, uint64, negative int, *big.Int, big.Int, decimal / hex string, []byte, over-modulus and negative big integers) x F47 and curve fields. Oracle: the generator's plan (declared depth-first order, documented visibility rules): witness vector, public-only witness, Witness.Public(), input counts of both compiled systems, Define pinning leaf i to constant i (solves; fails when two same-visibility leaves are exchanged), binary and JSON round trips; the ToJSON document decoded generically must hold every assigned value at the path of its variable (field / tag names, indices in declared order, declared lengths at every nesting level of arrays of arrays with unequal dimensions), and a JSON document written from the plan must be read by FromJSON into the expected vector. Non-trivial: >=2 public and >=2 secret leaves and (depth >= 2, array of structs, omitted field or inherit tag). Distinct: SHA-256 of the case JSON."
 
 func TestWitnessBinding(t *testing.T) {
 	rec := ev.Get(ID)
